@@ -449,6 +449,12 @@ def _tblock(stmts, env, result):
             b, tb = _tblock((st.orelse or []) + rest, env, result)
             need(ta == tb, 'kernel: branches of different types %s / %s' % (ta, tb))
             return ('(if %s then %s else %s)' % (c, a, b), ta)
+        if any(isinstance(x, ast.Return) for x in ast.walk(st)):
+            # some path through the if returns: the statements after the if are the continuation of both branches
+            a, ta = _tblock(list(st.body) + rest, env, result)
+            b, tb = _tblock(list(st.orelse or []) + rest, env, result)
+            need(ta == tb, 'kernel: branches of different types %s / %s' % (ta, tb))
+            return ('(if %s then %s else %s)' % (c, a, b), ta)
         names = _assigned([st])
         need(names is not None and names, 'kernel: if-block with statements other than assignments')
         # a variable first assigned inside the if is local to its branch (a later use outside fails as an unknown name) - unless both branches assign it
@@ -1096,6 +1102,67 @@ def main(out_path):
         need(len(sp) == 1 and isinstance(sp[0].body[0], ast.Continue) and ast.unparse(sp[0].test) == 'algorithm_recommendation_suppress_list is not None and name in algorithm_recommendation_suppress_list',
              'get_algorithm_recommendations: suppression test')
     soft('recommendation decisions (Algorithms.get_recommendations, get_algorithm_recommendations)', ['C13'], ex_recs)
+
+    def ex_audit_phases():
+        # audit(): the block between the parsed KEXINIT and the report decides which follow-up phases run (each phase = connections to the target).
+        # Calls that start a phase are rewritten to `log.append(<phase>)`, every `return` to `return log`, debug output is dropped; the rest is translated as it stands.
+        au = func_node(t_main, 'audit')
+        start = [n for n in ast.walk(au) if isinstance(n, ast.If) and ast.unparse(n.test) == 'aconf.dheat is not None']
+        need(len(start) == 1, 'audit(): the `if aconf.dheat is not None:` block')
+        parent = [n for n in ast.walk(au) if isinstance(n, (ast.If, ast.Try, ast.FunctionDef, ast.With)) and any(start[0] is x for x in getattr(n, 'orelse', []) + getattr(n, 'body', []))]
+        need(len(parent) == 1, 'audit(): enclosing block of the phase decisions')
+        seq = parent[0].orelse if any(start[0] is x for x in parent[0].orelse) else parent[0].body
+        i0 = [i for i, x in enumerate(seq) if x is start[0]][0]
+        block = seq[i0:i0 + 3]
+        need(len(block) == 3 and ast.unparse(block[1]) == "dh_rate_test_notes = ''" and isinstance(block[2], ast.If) and ast.unparse(block[2].test) == 'aconf.client_audit is False',
+             'audit(): dheat / rate-flood branch, then the client_audit test')
+        PH = {'DHEat(out, aconf, banner, kex).run()': 'dheat', 'DHEat.dh_rate_test(out, aconf, kex, 0, 0, 0)': 'rate-flood', 'HostKeyTest.run(out, s, kex)': 'hostkey',
+              'GEXTest.run(out, s, banner, kex)': 'gex', 'run_gex_granular_modulus_size_test(out, s, kex, aconf)': 'gex-granular', 'DHEat.dh_rate_test(out, aconf, kex, 1.5, 38, 3)': 'rate-check'}
+        seen = []
+
+        def app(ph):
+            seen.append(ph)
+            return ast.AugAssign(target=ast.Name(id='log', ctx=ast.Store()), op=ast.Add(), value=ast.List(elts=[ast.Constant(value=ph)], ctx=ast.Load()))
+
+        def rw(stmts):
+            out_ = []
+            for st in stmts:
+                if isinstance(st, ast.Expr) and isinstance(st.value, ast.Call):
+                    txt = ast.unparse(st.value)
+                    if txt in PH:
+                        out_.append(app(PH[txt]))
+                    else:
+                        need(txt.startswith('out.d('), 'audit(): call %s among the phase decisions' % txt[:60])
+                elif isinstance(st, ast.Assign) and ast.unparse(st.targets[0]) == 'dh_rate_test_notes':
+                    txt = ast.unparse(st.value)
+                    if txt in PH:
+                        out_.append(app(PH[txt]))
+                    else:
+                        need(txt == "''", 'audit(): dh_rate_test_notes = %s' % txt[:60])
+                elif isinstance(st, ast.Return):
+                    txt = ast.unparse(st.value)
+                    if txt in PH:
+                        out_.append(app(PH[txt]))
+                    else:
+                        need(txt == 'exitcodes.GOOD', 'audit(): return %s among the phase decisions' % txt[:60])
+                    out_.append(ast.Return(value=ast.Name(id='log', ctx=ast.Load())))
+                elif isinstance(st, ast.If):
+                    b, o_ = rw(st.body), rw(st.orelse)
+                    if not b and not o_:
+                        continue
+                    if not b:
+                        out_.append(ast.If(test=ast.UnaryOp(op=ast.Not(), operand=st.test), body=o_, orelse=[]))
+                    else:
+                        out_.append(ast.If(test=st.test, body=b, orelse=o_))
+                else:
+                    need(False, 'audit(): statement %s among the phase decisions' % ast.unparse(st)[:60])
+            return out_
+        stmts = rw(block)
+        need(sorted(seen) == sorted(PH.values()), 'audit(): phases started %r' % (seen,))
+        ins = {'aconf.dheat is not None': ('dheat', 'bool'), 'aconf.conn_rate_test_enabled': ('flood', 'bool'), 'aconf.client_audit': ('client_audit', 'bool'),
+               'aconf.gex_test': ('gex_test', 'string'), 'aconf.skip_rate_test': ('skip_rate_test', 'bool'), 'log': ('(@nil string)', 'list string')}
+        w(kernel('src_audit_phases', [('dheat', 'bool'), ('flood', 'bool'), ('client_audit', 'bool'), ('gex_test', 'string'), ('skip_rate_test', 'bool')], stmts, inputs=ins, result='log'))
+    soft('follow-up phases of an audit (audit)', ['C19'], ex_audit_phases)
 
     def ex_resolve_family():
         rs = func_node(t_sock, 'SSH_Socket._resolve')
